@@ -7,6 +7,7 @@ mod exec;
 mod findings;
 mod gen;
 mod minimise;
+mod monitors;
 mod node;
 mod oracle;
 mod props;
@@ -699,6 +700,39 @@ fn selftest(args: &[String]) -> i32 {
     }
 }
 
+/// Debug aid: replays violation files against the current tree and says which known finding (if any) each matches.
+fn triage(args: &[String]) -> i32 {
+    exec::warm_up();
+    std::panic::set_hook(Box::new(|_| {}));
+    let known = match findings::Findings::load() {
+        Ok(k) => k,
+        Err(e) => {
+            eprintln!("{e}");
+            return 2;
+        }
+    };
+    for path in args {
+        let rf: ReplayFile = match std::fs::read_to_string(path).ok().and_then(|t| serde_json::from_str(&t).ok()) {
+            Some(r) => r,
+            None => {
+                println!("{path}: unreadable");
+                continue;
+            }
+        };
+        match replay_events(&rf.property, &rf.config, &rf.events) {
+            None => println!("{path}: hang/panic"),
+            Some(o) => match o.violation {
+                None => println!("{path}: no violation now"),
+                Some(v) => match known.matches(&rf.property, &v, true) {
+                    Some(f) => println!("{path}: {}", f.id),
+                    None => println!("{path}: UNMATCHED {} {} {:?} tags={:?}", v.oracle, v.culprit_kind, v.facets, v.tags.iter().filter(|t| !t.starts_with("has:")).collect::<Vec<_>>()),
+                },
+            },
+        }
+    }
+    0
+}
+
 /// Debug aid: prints the snapshot entries matching a filter after every event of a replay file.
 fn dump(args: &[String]) -> i32 {
     let path = args.first().cloned().unwrap_or_default();
@@ -740,6 +774,7 @@ fn main() {
         Some("replay") => replay(&args[1..]),
         Some("selftest") => selftest(&args[1..]),
         Some("dump") => dump(&args[1..]),
+        Some("triage") => triage(&args[1..]),
         _ => {
             eprintln!("usage: icsim check <prop> [quick|thorough] | replay <file> | selftest [n]");
             2
